@@ -606,7 +606,10 @@ pub fn targeted(rng: &mut Rng) -> (&'static str, Program, &'static str) {
         }
         11 => {
             // strings: concatenation, comparison by UTF-16 unit, arg, isEmpty, subscript
-            match rng.below(4) {
+            match rng.below(5) {
+                // the translation context of qsTr is the document's type name (the runtime mock's translate() returns
+                // `<context>source`; the k-th document of a batch is type `T<k>`, its root object is anonymous)
+                4 => ("s", expr(call(mem(call(id("qsTr"), vec![Expr::Str(rng.pick(&["Hello, %1!", "%1", "n"]).to_string())]), "arg"), vec![dyn_int(rng)])), "tr-context"),
                 0 => ("b", expr(bin(*rng.pick(&["lt", "le", "gt", "ge", "eq", "ne"]), mem(id("a"), "s"), mem(id("b"), "t"))), "string-compare"),
                 1 => ("s", expr(call(mem(call(mem(mem(id("a"), "s"), "arg"), vec![dyn_int(rng)]), "arg"), vec![mem(id("b"), "s")])), "string-arg"),
                 2 => ("s", expr(tern(call(mem(mem(id("a"), "items"), "isEmpty"), vec![]), Expr::Str("none".into()), Expr::Subscript(Box::new(mem(id("a"), "items")), Box::new(dyn_int(rng))))), "list-subscript"),
